@@ -168,6 +168,7 @@ func checkC15(c *Ctx, r *Report) {
 		}
 	}
 	r.floor("C15.RW", "printing loops over member lists", nLoops, 10)
+	c15Every(c, r)
 	c15Esc(c, r)
 	c15Kinds(c, r)
 	c15Gen(c, r)
@@ -176,8 +177,17 @@ func checkC15(c *Ctx, r *Report) {
 func c15Esc(c *Ctx, r *Report) {
 	// functions that write a quote constant and a non-constant string
 	n := 0
+	// helpers of the description writer write between the quotes their caller wrote
+	descHelpers := map[*ssa.Function]bool{}
+	if wd := c.fn("writeDesc"); wd != nil {
+		for f := range c.reachable(wd) {
+			if c.inPkg(f) && f != wd && f.Name() != "writeString" {
+				descHelpers[f] = true
+			}
+		}
+	}
 	for _, fn := range c.allFns {
-		if !(fn.Name() == "writeDesc" || fn.Name() == "Write" || fn.Name() == "write" || fn.Name() == "writeHeader") {
+		if !(fn.Name() == "writeDesc" || fn.Name() == "Write" || fn.Name() == "write" || fn.Name() == "writeHeader" || descHelpers[fn]) {
 			continue
 		}
 		if fn.Signature.Recv() != nil && c.isNamed(fn.Signature.Recv().Type(), "ArgValue") {
@@ -201,7 +211,7 @@ func c15Esc(c *Ctx, r *Report) {
 				}
 			}
 		}
-		if !writesQuote {
+		if !writesQuote && !descHelpers[fn] {
 			continue
 		}
 		k := 0
@@ -217,39 +227,8 @@ func c15Esc(c *Ctx, r *Report) {
 				continue
 			}
 			// indentation strings built from constants
-			if call, ok := cv.X.(*ssa.Call); ok {
-				if f := calleeObj(call); f != nil && f.Name() == "Repeat" {
-					continue
-				}
-			}
-			if p, ok := cv.X.(*ssa.Phi); ok {
-				allConst := true
-				ls, _ := phiLeaves(p)
-				for _, l := range ls {
-					if _, isC := l.val.(*ssa.Const); !isC {
-						if call, ok := l.val.(*ssa.Call); ok {
-							if f := calleeObj(call); f != nil && f.Name() == "Repeat" {
-								continue
-							}
-						}
-						if bo, ok := l.val.(*ssa.BinOp); ok && bo.Op == token.ADD {
-							continue
-						}
-						allConst = false
-					}
-				}
-				if allConst {
-					continue
-				}
-			}
-			if bo, ok := cv.X.(*ssa.BinOp); ok && bo.Op == token.ADD {
-				if _, isC := bo.X.(*ssa.Const); isC {
-					if call, ok := bo.Y.(*ssa.Call); ok {
-						if f := calleeObj(call); f != nil && f.Name() == "Repeat" {
-							continue
-						}
-					}
-				}
+			if c.indentString(cv.X, 0) {
+				continue
 			}
 			n++
 			k++
@@ -568,4 +547,320 @@ func checkC16(c *Ctx, r *Report) {
 		}
 		r.Notes = append(r.Notes, fmt.Sprintf("ParseFS concatenates the matched files in Go map iteration order (%v): it relies on the order independence this property states", dep))
 	}
+	tableIncrRule(c, r, "C16.INCR", "two definitions of one name inside a single document are then both accepted (the later wins in the name index, both stay in the list), while the same definitions split over two loads are rejected: acceptance depends on how the definitions are partitioned")
+	c16ExtRefs(c, r)
+}
+
+// tableIncrRule: the type and directive tables have no duplicate test of their own (unlike the member
+// lists); uniqueness of names rests on the loader inserting one definition at a time, each insertion
+// made only after a lookup of that name in the same table came back empty. An insertion of a
+// collected batch after the loop is not seen by the lookups of the other members of the batch.
+func tableIncrRule(c *Ctx, r *Report, rule, consequence string) {
+	r.rule(rule, "in the loader every insertion into Root.types / Root.dirs adds exactly one definition and is control-dependent on get(name) == nil of the same table")
+	at := c.fn("(*Root).addTypes")
+	add := c.fn("(*typeList).add")
+	get := c.fn("(*typeList).get")
+	if at == nil || add == nil || get == nil {
+		r.undecided(rule, "anchors (*Root).addTypes / (*typeList).add / (*typeList).get", token.NoPos, "not found")
+		return
+	}
+	r.fnSeen(fnName(at))
+	tableOf := func(v ssa.Value) string {
+		// receiver: load of Root.types / Root.dirs
+		if _, o, f, ok := loadOfField(v); ok && o == "Root" {
+			return f
+		}
+		return ""
+	}
+	n := 0
+	for _, ci := range callsIn(at) {
+		if ci.Common().StaticCallee() != add || len(ci.Common().Args) < 2 {
+			continue
+		}
+		tbl := tableOf(ci.Common().Args[0])
+		if tbl == "" {
+			continue
+		}
+		n++
+		elems, lit := sliceLitElems(ci.Common().Args[1])
+		one := lit && len(elems) == 1
+		guarded := hasGuard(ci.Block(), func(g guard) bool {
+			v, eq, ok := nilCmp(g.cond)
+			if !ok || eq != g.val {
+				return false
+			}
+			call, ok := stripIface(v).(*ssa.Call)
+			if !ok || call.Call.StaticCallee() != get || len(call.Call.Args) < 1 {
+				return false
+			}
+			return tableOf(call.Call.Args[0]) == tbl
+		})
+		r.check(rule, fmt.Sprintf("%s: insertion #%d into Root.%s adds one definition after a failed lookup of its name", fnName(at), n, tbl), ci.Pos(), one && guarded,
+			fmt.Sprintf("single definition: %v, dominated by get(name)==nil on Root.%s: %v; %s", one, tbl, guarded, consequence))
+	}
+	r.floor(rule, "insertions into the type and directive tables by the loader", n, 2)
+}
+
+// c16ExtRefs: what an extend block adds has its references resolved before it is merged into the
+// extended definition. Resolution after the merge only reaches definitions the table walk visits; the
+// implicit schema object is not in the type table.
+func c16ExtRefs(c *Ctx, r *Report) {
+	r.rule("C16.EXTREFS", "every Extend(x) made by the loader is dominated by a successful reference replacement of the same x")
+	ae := c.fn("(*Root).addExtends")
+	rt := c.fn("(*Root).replaceTypeRefs")
+	if ae == nil || rt == nil {
+		r.undecided("C16.EXTREFS", "anchors (*Root).addExtends / (*Root).replaceTypeRefs", token.NoPos, "not found")
+		return
+	}
+	r.fnSeen(fnName(ae))
+	n := 0
+	for _, ci := range callsIn(ae) {
+		cc := ci.Common()
+		if !cc.IsInvoke() || cc.Method.Name() != "Extend" || len(cc.Args) != 1 {
+			continue
+		}
+		n++
+		ok := false
+		for _, c2 := range callsIn(ae) {
+			call, isCall := c2.(*ssa.Call)
+			if !isCall || call.Call.StaticCallee() != rt || len(call.Call.Args) < 2 {
+				continue
+			}
+			if !sameVal(stripIface(call.Call.Args[1]), stripIface(cc.Args[0])) {
+				continue
+			}
+			if !(call.Block() == ci.Block() || call.Block().Dominates(ci.Block())) {
+				continue
+			}
+			if hasGuard(ci.Block(), func(g guard) bool { return guardSaysNil(g, call) }) {
+				ok = true
+			}
+		}
+		r.check("C16.EXTREFS", fmt.Sprintf("%s: merge #%d happens after the extension's own references were resolved", fnName(ae), n), ci.Pos(), ok,
+			"the extension is merged with its forward references still placeholders; a later walk over the type table does not visit the implicit schema object, so `extend schema { mutation: M }` with M defined in the same load keeps a placeholder while the same definitions arranged differently resolve")
+	}
+	r.floor("C16.EXTREFS", "extension merges in the loader", n, 1)
+}
+
+// c15Every: in the printers of schema definitions, a loop over the members of one definition
+// (arguments of a directive use, fields, arguments, enum values, union members, interfaces,
+// locations, directive uses) emits something for every member: on every fault-free path through an
+// iteration there is a write, a call of a printing function or an append to the list that is
+// printed afterwards. A member skipped because of its value (a null argument, an empty
+// description) is lost when the text is parsed again.
+func c15Every(c *Ctx, r *Report) {
+	r.rule("C15.EVERY", "printer loops over the members of a definition emit for every member: no fault-free path completes an iteration without a write, a printing call or an append")
+	var roots []*ssa.Function
+	for _, T := range schemaStructs {
+		if w := c.fn("(*" + T + ").Write"); w != nil {
+			roots = append(roots, w)
+		}
+	}
+	reach := c.reachable(roots...)
+	var fns []*ssa.Function
+	for f := range reach {
+		if c.inPkg(f) && len(f.Blocks) > 0 {
+			fns = append(fns, f)
+		}
+	}
+	sort.Slice(fns, func(i, j int) bool { return fnName(fns[i]) < fnName(fns[j]) })
+	isWriter := func(t types.Type) bool {
+		n, ok := t.(*types.Named)
+		return ok && n.Obj().Pkg() != nil && n.Obj().Pkg().Path() == "io" && n.Obj().Name() == "Writer"
+	}
+	memberSel := map[string]bool{"DirectiveUse.Args": true, "fieldList.list": true, "argList.list": true, "inputFieldList.list": true, "enumValueList.list": true, "Union.Members": true, "Object.Interfaces": true, "Directive.On": true, "Base.Dirs": true, "FieldDef.Dirs": true, "Arg.Dirs": true, "InputField.Dirs": true, "EnumValue.Dirs": true}
+	r.Tables["C15.EVERY member containers"] = keys(memberSel)
+	overMembers := func(l *loopInfo) (string, bool) {
+		found, name := false, ""
+		var walk func(v ssa.Value, d int)
+		walk = func(v ssa.Value, d int) {
+			if d > 8 || found {
+				return
+			}
+			switch t := v.(type) {
+			case *ssa.UnOp:
+				if fa, ok := t.X.(*ssa.FieldAddr); ok {
+					sel := selOfField(fa.X.Type(), fa.Field)
+					if memberSel[sel] {
+						found, name = true, sel
+						return
+					}
+					walk(fa.X, d+1)
+				} else {
+					walk(t.X, d+1)
+				}
+			case *ssa.FieldAddr:
+				sel := selOfField(t.X.Type(), t.Field)
+				if memberSel[sel] {
+					found, name = true, sel
+					return
+				}
+				walk(t.X, d+1)
+			case *ssa.Field:
+				sel := selOfField(t.X.Type(), t.Field)
+				if memberSel[sel] {
+					found, name = true, sel
+					return
+				}
+				walk(t.X, d+1)
+			case *ssa.Phi:
+				for _, e := range t.Edges {
+					walk(e, d+1)
+				}
+			case *ssa.Parameter:
+				// a list handed in by the caller (writeArgs(w, &fd.args), writeDirectiveUses(w, dirs))
+				switch derefNamed(t.Type()) {
+				case "argList", "fieldList", "inputFieldList", "enumValueList":
+					found, name = true, "parameter "+t.Name()
+				}
+				if sl, ok := t.Type().Underlying().(*types.Slice); ok && derefNamed(sl.Elem()) == "DirectiveUse" {
+					found, name = true, "parameter "+t.Name()
+				}
+			}
+		}
+		for b := range l.body {
+			for _, in := range b.Instrs {
+				switch t := in.(type) {
+				case *ssa.Next:
+					if rg, ok := t.Iter.(*ssa.Range); ok {
+						walk(rg.X, 0)
+					}
+				case *ssa.IndexAddr:
+					if l.body[b] {
+						walk(t.X, 0)
+					}
+				case *ssa.Index:
+					walk(t.X, 0)
+				}
+			}
+		}
+		// rangeindex loops compute len(x) in the preheader: the IndexAddr in the body covers them
+		return name, found
+	}
+	n := 0
+	for _, fn := range fns {
+		for li, l := range loopsOf(fn) {
+			name, ok := overMembers(l)
+			if !ok {
+				continue
+			}
+			n++
+			effect := map[*ssa.BasicBlock]bool{}
+			for b := range l.body {
+				for _, in := range b.Instrs {
+					ci, ok := in.(ssa.CallInstruction)
+					if !ok {
+						continue
+					}
+					cc := ci.Common()
+					switch {
+					case cc.IsInvoke() && cc.Method.Name() == "Write":
+						effect[b] = true
+					case isBuiltinCall(ci, "append"):
+						effect[b] = true
+					default:
+						sig := cc.Signature()
+						for i := 0; i < sig.Params().Len(); i++ {
+							if isWriter(sig.Params().At(i).Type()) {
+								effect[b] = true
+							}
+						}
+					}
+				}
+			}
+			// search a fault-free path head -> latch that avoids every effect block
+			seen := map[*ssa.BasicBlock]bool{}
+			var skip *ssa.BasicBlock
+			var dfs func(b *ssa.BasicBlock) bool
+			dfs = func(b *ssa.BasicBlock) bool {
+				if seen[b] || !l.body[b] || effect[b] {
+					return false
+				}
+				seen[b] = true
+				succs := b.Succs
+				if len(b.Instrs) > 0 {
+					if ifi, ok := b.Instrs[len(b.Instrs)-1].(*ssa.If); ok {
+						g := normGuard(guard{ifi.Cond, true, ifi})
+						if v, eq, isN := nilCmp(g.cond); isN && isErrorType(v.Type()) {
+							// fault-free: the error is nil
+							if eq == g.val {
+								succs = []*ssa.BasicBlock{b.Succs[0]}
+							} else {
+								succs = []*ssa.BasicBlock{b.Succs[1]}
+							}
+						}
+					}
+				}
+				for _, s := range succs {
+					if s == l.head {
+						skip = b
+						return true
+					}
+					if dfs(s) {
+						return true
+					}
+				}
+				return false
+			}
+			bad := false
+			for _, s := range l.head.Succs {
+				if l.body[s] && s != l.head && dfs(s) {
+					bad = true
+				}
+			}
+			detail := "an iteration over " + name + " can complete without emitting anything for that member: the member is missing from the printed SDL, so the re-parsed schema differs (an omitted argument is replaced by the definition's default)"
+			if skip != nil {
+				detail += "; skipping path ends at " + c.pos(valPosInstr(skip))
+			}
+			r.check("C15.EVERY", fmt.Sprintf("%s: loop %d over %s emits for every member", fnName(fn), li+1, name), loopPos(l), !bad, detail)
+		}
+	}
+	r.floor("C15.EVERY", "printer loops over member containers", n, 8)
+}
+
+// indentString: v is layout text built only from constants and strings.Repeat of constants:
+// a constant, Repeat(..), a concatenation or phi of such, or a parameter that receives such a
+// value at every in-package call site.
+func (c *Ctx) indentString(v ssa.Value, depth int) bool {
+	if depth > 4 {
+		return false
+	}
+	switch t := v.(type) {
+	case *ssa.Const:
+		return true
+	case *ssa.Call:
+		if f := calleeObj(t); f != nil && f.Name() == "Repeat" && f.Pkg() != nil && (f.Pkg().Path() == "strings" || f.Pkg().Path() == "bytes") {
+			return len(t.Call.Args) > 0 && c.indentString(t.Call.Args[0], depth+1)
+		}
+	case *ssa.BinOp:
+		return t.Op == token.ADD && c.indentString(t.X, depth+1) && c.indentString(t.Y, depth+1)
+	case *ssa.Phi:
+		for _, e := range t.Edges {
+			if e != ssa.Value(t) && !c.indentString(e, depth+1) {
+				return false
+			}
+		}
+		return true
+	case *ssa.Parameter:
+		fn := t.Parent()
+		idx := paramIndex(fn, t)
+		node := c.cg.Nodes[fn]
+		if node == nil || len(node.In) == 0 {
+			return false
+		}
+		for _, e := range node.In {
+			if e.Site == nil {
+				return false
+			}
+			args := e.Site.Common().Args
+			if e.Site.Common().IsInvoke() || idx >= len(args) {
+				return false
+			}
+			if !c.indentString(args[idx], depth+1) {
+				return false
+			}
+		}
+		return true
+	}
+	return false
 }
